@@ -36,7 +36,7 @@ NAMES = ['bold', 'faint', 'no_bold_faint', 'italic', 'no_italic', 'underline', '
          'alt_font_1', 'default_font', 'framed', 'encircled', 'no_framed_encircled', 'overlined', 'no_overlined',
          'proportional_spacing', 'no_proportional_spacing', 'swap_bg_fg', 'no_swap_bg_fg', 'fg_bright_red']
 CORE_NAMES = ['bold', 'faint', 'no_bold_faint', 'red', 'blue', 'fg_default', 'underline', 'no_underline', 'bg_red',
-              'bg_default', 'italic', 'orange']
+              'bg_default', 'italic', 'orange', 'alt_font_1', 'default_font']
 
 
 def _variant(name, how):
@@ -60,7 +60,7 @@ def wf_spec():
         st.tuples(name, st.sampled_from([0, 0, 0, 1, 2, 3])).map(lambda t: {'k': 'name', 'v': _variant(*t)}),
         st.tuples(name, st.sampled_from([0, 0, 0, 1, 2, 3])).map(lambda t: {'k': 'name', 'v': _variant(*t)}),
         name.map(lambda n: {'k': 'fmt', 'v': n.upper()}),
-        st.sampled_from([1, 2, 3, 4, 22, 24, 31, 34, 39, 41, 49, 21, 9, 29]).map(lambda i: {'k': 'int', 'v': i}),
+        st.sampled_from([1, 2, 3, 4, 22, 24, 31, 34, 39, 41, 49, 21, 9, 29, 10, 11, 12, 10]).map(lambda i: {'k': 'int', 'v': i}),
         st.sampled_from(['1', '31', '1;31', '4;34', '22', '39', '38;5;200', '1;38;5;200', '48;2;1;2;3;3', '58;5;3;4']).map(
             lambda s: {'k': 'str', 'v': s}),
         st.sampled_from(['1', '31', '38;5;214', '48;2;1;2;3', '22', '39', '2']).map(lambda s: {'k': 'verb', 'v': s}),
